@@ -14,6 +14,16 @@ Tie (iii) validation on the real thing: get_array / get_df / make for lists of r
 """
 from __future__ import annotations
 
+import os
+import sys
+
+# The line-level schedules of tie (ii) are replayable only if the code under test takes the same path in
+# every process; strax iterates over `set`s of data-type names (`_get_plugins`), whose order depends on the
+# string hash seed.  Pin it (re-executing the interpreter once, before anything heavy is imported).
+if os.environ.get("PYTHONHASHSEED") is None and os.environ.get("C15_NO_REEXEC") is None and sys.argv and sys.argv[0].endswith("check.py"):
+    os.environ["PYTHONHASHSEED"] = "0"
+    os.execv(sys.executable, [sys.executable] + sys.argv)
+
 import itertools
 import threading
 from concurrent.futures import ThreadPoolExecutor as _RealTPE
@@ -51,13 +61,13 @@ class HarnessTimeout(Exception):
 class Script:
     """Lets exactly one running stub invocation finish each time multi_run is about to wait()."""
 
-    def __init__(self, sorted_runs, order, workers, results, scripted=True, rng=None):
+    def __init__(self, sorted_runs, order, workers, results, scripted=True, delays=None):
         self.sorted_runs = list(sorted_runs)
         self.order = list(order)
         self.workers = workers
         self.results = results
         self.scripted = scripted
-        self.rng = rng
+        self.delays = delays or {}   # free-running mode: seconds each run's stub sleeps before finishing
         self.cv = threading.Condition()
         self.inv = []           # invocations: dict(run, fut, ev, released)
         self.assigned = set()   # future ids already matched to an invocation
@@ -78,8 +88,8 @@ class Script:
                 me["released"] = True
                 me["ev"].set()
             self.cv.notify_all()
-        if not self.scripted and self.rng is not None:
-            # free-running: tiny random delay so that completion order and batching vary
+        if not self.scripted:
+            # free-running: tiny delay so that completion order and batching vary
             d = self.delays.get(run_id, 0)
             if d:
                 threading.Event().wait(d)
@@ -178,9 +188,8 @@ def impl_multi_run(case):
     runs = case["runs"]
     rank = rank_table(runs)
     results = {r: tuple(v) for r, v in case["results"].items()}
-    script = Script(sorted(runs), case["order"], case["workers"], results, scripted=case.get("scripted", True))
-    script.delays = case.get("delays", {})
-    script.rng = True
+    script = Script(sorted(runs), case["order"], case["workers"], results, scripted=case.get("scripted", True),
+                    delays=case.get("delays", {}))
     out = None
     with scripted_executor(script):
         try:
@@ -204,7 +213,17 @@ def show_results_op(case, rank):
     return ",".join(toks) if toks else "-"
 
 
+def _wait_driver(seconds=240):
+    """other builders relink the shared driver now and then: wait for the binary instead of crashing"""
+    import time
+    from lib.engine import DRIVER
+    t = time.time()
+    while not DRIVER.exists() and time.time() - t < seconds:
+        time.sleep(2)
+
+
 def op_multi_run(case):
+    _wait_driver()
     rank = rank_table(case["runs"])
     runs = sl.show_ints([rank[r] for r in case["runs"]])
     return (f"c15.mr {runs} {sl.show_ints(case['order'])} {show_results_op(case, rank)} "
@@ -264,16 +283,19 @@ def run_ids_pool(rng, n, dup=False):
 
 
 def gen_multi_run_exhaustive(ctx):
-    """all completion orders for <= 4 runs x workers 1..4 x failure patterns"""
+    """every completion order for <= 4 runs x workers 1..4 x failure patterns.
+    quick: 4 runs get the all-ok / empty-result patterns and a single failing run (first or last id);
+    thorough: every single failing run and every failing pair for every size."""
     cases = []
-    max_n = 4
+    max_n = int(os.environ.get("C15_MAX_N", "4"))      # development aid
     names = ["3", "10", "2", "1"]          # unsorted input, lexicographic trap ("10" < "2")
     for n in range(0, max_n + 1):
         runs = names[:n]
         srt = sorted(runs)
         rows = {r: ("ok", [10 * i + 1, 10 * i + 2][: 1 + i % 2]) for i, r in enumerate(runs)}
         patterns = [dict(rows)]
-        for r in runs:                       # one failing run
+        full = ctx.thorough or n <= 3
+        for r in (srt if full else [srt[0], srt[-1]]):        # one failing run
             patterns.append(dict(rows, **{r: ("err", "KeyError")}))
         pairs = list(itertools.combinations(srt, 2))
         if not ctx.thorough:                 # quick: neighbouring runs only, and only up to 3 runs
@@ -287,9 +309,10 @@ def gen_multi_run_exhaustive(ctx):
                 for pi, pat in enumerate(patterns):
                     fails = any(v[0] == "err" for v in pat.values())
                     for ignore in ((0, 1) if fails else (0,)):
-                        for throw in ((0, 1) if (pi < 1 or ctx.thorough) else (0,)):
+                        for throw in ((0, 1) if ((pi < 1 and n <= 3) or ctx.thorough) else (0,)):
                             cases.append(mr_case(runs, order, pat, ignore, throw, w))
     cases.append(mr_case(["1", "2"], [], {}, 0, 0, 0))
+    cases.append(mr_case(["2", "1", "3"], [2, 0, 1], {"1": ("err", "OSError")}, 1, 1, 2))
     return cases
 
 
@@ -532,6 +555,7 @@ def make_strategy(spec):
 
 
 _SIDE = {}
+_TALLY = {"stuck": 0, "uncontrolled": 0}
 
 
 def run_interleaved(case):
@@ -587,6 +611,8 @@ def explained(info, i, e):
     if kind == "TypeError":
         while mine and mine[-1][2][0] in "IN":
             mine.pop()
+    if kind == "KeyError" and mine and mine[-1][2][0] == "C" and mine[-1][3] == "b0":
+        return True      # `if name not in registry: raise KeyError(...)`
     if kind == "KeyError" and mine and mine[-1][3] != "eKeyError":
         # key_for: `plugins[target]` on the plain outer/inner dict after the cache was rebuilt by another thread
         return where_in_context(e) == "key_for" and any(x[2] == "W0" for x in info["log"].entries)
@@ -603,10 +629,14 @@ def impl_interleaved(case):
     case["schedule_len"] = len(il.schedule)
     if il.stuck:
         case["stuck"] = True
+        _TALLY["stuck"] += 1
+    if il.uncontrolled:
+        _TALLY["uncontrolled"] += 1
     return line
 
 
 def op_interleaved(case):
+    _wait_driver()
     return _SIDE[id(case)]["op"]
 
 
@@ -945,11 +975,11 @@ def run_stubs(ctx):
                    nontrivial=nontrivial_multi_run, exhaustive=True, branch=branch_multi_run,
                    rule="0..4 runs (unsorted ids, lexicographic trap) x every completion order x workers 1..4 x {all ok, each single failing run, "
                         "pairs failing with different kinds, an empty result} x ignore_errors x throw_away_result; non-trivial = at least 2 runs")
-    cases = gen_multi_run_random(ctx, ctx.pick(200, 4000))
+    cases = gen_multi_run_random(ctx, ctx.pick(200, 3000))
     ctx.correspond("multi_run/random", cases, impl_multi_run, op_multi_run, oracle_multi_run,
                    nontrivial=nontrivial_multi_run, branch=branch_multi_run,
                    rule="0..10 runs (15% with duplicate ids), workers 1..8, random full or partial completion priorities, 0..3 failing runs of random kinds")
-    cases = gen_multi_run_random(ctx, ctx.pick(150, 3000), scripted=False)
+    cases = gen_multi_run_random(ctx, ctx.pick(150, 2000), scripted=False)
     ctx.check_oracle("multi_run/free-running", cases, impl_multi_run, oracle_multi_run, nontrivial=nontrivial_multi_run,
                      branch=branch_multi_run,
                      rule="same generator, stubs finish on their own after 0..4 ms (several futures per wait() round): oracle only")
@@ -963,13 +993,13 @@ def run_registry(ctx, t0):
                    "plugin registry, of the _fixed_plugin_cache attribute and of the inner plugin-cache dicts is logged and replayed through the Lean model, "
                    "which must predict every result (incl. the first exception) and the final key sets; oracle: every thread returns the sequential result")
         cap = Capped(ctx, oracle_interleaved)
-        cases = registry_random_cases(ctx, ctx.pick(60, 1200))
+        cases = registry_random_cases(ctx, ctx.pick(60, 800))
         ctx.correspond("registry/random", cases, impl_interleaved, op_interleaved, cap, nontrivial=nontriv, branch=branch_interleaved,
                        rule=rule_il + "; seeded random schedules (switch probability 0.01..0.5), single / multiple same-kind targets, cold / warm cache, 20% with storage")
         cap.note("registry/random")
         _lap(t0, "registry/random")
         cap = Capped(ctx, oracle_interleaved)
-        cases = registry_preempt_cases(ctx, ctx.pick(25, 10 ** 6), ctx.pick(5, 150))
+        cases = registry_preempt_cases(ctx, ctx.pick(25, 10 ** 6), ctx.pick(5, 100))
         ctx.correspond("registry/preempt", cases, impl_interleaved, op_interleaved, cap, nontrivial=nontriv, branch=branch_interleaved,
                        exhaustive=ctx.thorough,
                        rule=rule_il + "; preemption-bounded: thread 0 is stopped before a line that touches the shared state, thread 1 runs to completion (one preemption; "
@@ -977,13 +1007,16 @@ def run_registry(ctx, t0):
         cap.note("registry/preempt")
         minimal_interleavings(ctx, cases)
         _SIDE.clear()
+        if _TALLY["stuck"] or _TALLY["uncontrolled"]:
+            ctx.note(f"interleaver: {_TALLY['uncontrolled']} run(s) where a baton holder was taken to be blocked on a lock (schedule not exactly "
+                     f"replayable), {_TALLY['stuck']} run(s) given up as stuck; their access logs and results were still checked")
         _lap(t0, "registry/preempt")
 
 
 def run_real(ctx, t0):
     if True:
         cap = Capped(ctx, oracle_real)
-        cases = [real_case(ctx.rng) for _ in range(ctx.pick(120, 1500))]
+        cases = [real_case(ctx.rng) for _ in range(ctx.pick(120, 1000))]
         ctx.check_oracle("real/multi-run", cases, impl_real, cap, nontrivial=lambda c, o: c["workers"] >= 2, branch=branch_real,
                          rule="get_array / get_df / make on 2..8 runs x 1..8 workers, single / multiple same-kind targets, cold / warm plugin cache, with / without "
                               "storage, 25% with failing runs (60% of those with ignore_errors), interpreter switch interval 1 microsecond; non-trivial = at least 2 workers")
